@@ -486,18 +486,21 @@ def run_xy(ctx, lines, expect):
                 fv = float(ft(fv))
                 for iv in (info.min, info.max, 0, -1 if info.min < 0 else 1, info.max - 1):
                     big.append(((iv, it), (fv, ft)))
+    # ... alone, and inside long axes (whatever switches implementation with the length), at the front, in the middle and at the end
     for (va, ta), (vb, tb) in big:
-        for axis in ("x", "y"):
-            for swap in (False, True):
-                one, two = np.array([1, va], ta), np.array([1, vb], tb)
+        for axis, swap, pad, where in [(ax_, sw_, 0, 0) for ax_ in ("x", "y") for sw_ in (False, True)] + [("x", False, 129, 64), ("y", True, 200, 199), ("x", True, 1000, 0)]:
+            if True:
+                fill_a, fill_b = [1] * pad, [1] * pad
+                la, lb = fill_a[:where] + [1, va] + fill_a[where:], fill_b[:where] + [1, vb] + fill_b[where:]
+                one, two = np.array(la, ta), np.array(lb, tb)
                 if swap:
                     one, two = two, one
-                same = np.array([1, 2], np.int32)
-                a = XYData(one, np.array([1, 2], one.dtype)) if axis == "x" else XYData(np.array([1, 2], one.dtype), one)
-                b = XYData(two, np.array([1, 2], two.dtype)) if axis == "x" else XYData(np.array([1, 2], two.dtype), two)
+                oth_a, oth_b = np.ones(len(one), one.dtype), np.ones(len(two), two.dtype)
+                a = XYData(one, oth_a) if axis == "x" else XYData(oth_a, one)
+                b = XYData(two, oth_b) if axis == "x" else XYData(oth_b, two)
                 req = one.tolist() == two.tolist()
                 r = outcome(operator.eq, a, b)
-                ctx.case(("xy-eq-cross-dtype", str(va), str(one.dtype), str(vb), str(two.dtype), axis, swap))
+                ctx.case(("xy-eq-cross-dtype", str(va), str(one.dtype), str(vb), str(two.dtype), axis, swap, pad))
                 ctx.count("xy-eq", "cross-dtype " + str(req))
                 if r != ("ok", req) or (a != b) is not (not req):
                     ctx.violation(what="XYData equality across dtypes is not equality of the values", axis=axis, a=f"{one.tolist()} {one.dtype}", b=f"{two.tolist()} {two.dtype}",
